@@ -10,13 +10,22 @@ package redis
 
 import (
 	"context"
+	"crypto/ecdsa"
+	"crypto/elliptic"
+	crand "crypto/rand"
+	"crypto/tls"
+	"crypto/x509"
+	"crypto/x509/pkix"
 	"encoding/json"
 	"fmt"
+	"math/big"
 	"math/bits"
+	"net"
 	"reflect"
 	"sort"
 	"strings"
 	"sync"
+	"sync/atomic"
 	"testing"
 	"time"
 
@@ -64,22 +73,108 @@ type c12Profile struct {
 	typ     string // NodeType | ClusterType (a single miniredis acting as a one-node cluster)
 	pass    string
 	cfgPass string
+	// tls: the server pair speaks TLS only (self-signed certificate); the wrapper is built
+	// with WithTLS() / Config.Tls and the raw go-redis reference with the TLS configuration
+	// the wrapper documents for that option (InsecureSkipVerify)
+	tls bool
+	// front: two-node cluster. The address the wrapper (and the raw ClusterClient) is
+	// configured with belongs to a FRONT node that owns a slot range on paper (c12FrontLo..
+	// c12FrontHi) but holds no data: it answers every command with -MOVED to the data node
+	// (mA / mB), which owns the other slots. Both nodes report this topology in CLUSTER SLOTS. The client has
+	// to discover the second node from its single seed address, route by key slot and
+	// follow redirections; all data ends up on the data node.
+	front bool
 }
 
 const c12Secret = "c12-s3cret"
 
 var c12Profiles = []c12Profile{
-	{"node", NodeType, "", ""},
-	{"node+pass", NodeType, c12Secret, c12Secret},
-	{"cluster", ClusterType, "", ""},
-	{"cluster+pass", ClusterType, c12Secret, c12Secret},
-	{"mustfail:node-wrong-pass", NodeType, c12Secret, "wrong"},
-	{"mustfail:node-missing-pass", NodeType, c12Secret, ""},
-	{"mustfail:cluster-missing-pass", ClusterType, c12Secret, ""},
+	{"node", NodeType, "", "", false, false},
+	{"node+pass", NodeType, c12Secret, c12Secret, false, false},
+	{"cluster", ClusterType, "", "", false, false},
+	{"cluster+pass", ClusterType, c12Secret, c12Secret, false, false},
+	{"mustfail:node-wrong-pass", NodeType, c12Secret, "wrong", false, false},
+	{"mustfail:node-missing-pass", NodeType, c12Secret, "", false, false},
+	{"mustfail:cluster-missing-pass", ClusterType, c12Secret, "", false, false},
+	// round 8 (appended: the index is part of recorded cases)
+	{"node+tls", NodeType, "", "", true, false},
+	{"node+tls+pass", NodeType, c12Secret, c12Secret, true, false},
+	{"cluster+tls", ClusterType, "", "", true, false},
+	{"cluster2", ClusterType, "", "", false, true},
+	{"cluster2+pass", ClusterType, c12Secret, c12Secret, false, true},
 }
 
 func (p c12Profile) mustFail() bool { return p.pass != p.cfgPass }
 func (p c12Profile) cluster() bool  { return p.typ == ClusterType }
+
+// clientTLS: the TLS configuration of every raw go-redis client of the profile (the
+// one the wrapper documents for WithTLS: encryption without certificate verification).
+func (p c12Profile) clientTLS() *tls.Config {
+	if !p.tls {
+		return nil
+	}
+	return &tls.Config{InsecureSkipVerify: true}
+}
+
+var (
+	c12CertOnce sync.Once
+	c12Cert     tls.Certificate
+)
+
+// c12ServerTLS: a self-signed certificate made once per process.
+func c12ServerTLS(t *testing.T) *tls.Config {
+	c12CertOnce.Do(func() {
+		key, err := ecdsa.GenerateKey(elliptic.P256(), crand.Reader)
+		if err != nil {
+			t.Fatalf("tls key: %v", err)
+		}
+		tmpl := &x509.Certificate{
+			SerialNumber: big.NewInt(12),
+			Subject:      pkix.Name{CommonName: "c12"},
+			NotBefore:    time.Now().Add(-time.Hour),
+			NotAfter:     time.Now().Add(240 * time.Hour),
+			KeyUsage:     x509.KeyUsageDigitalSignature,
+			ExtKeyUsage:  []x509.ExtKeyUsage{x509.ExtKeyUsageServerAuth},
+			IPAddresses:  []net.IP{net.IPv4(127, 0, 0, 1)},
+		}
+		der, err := x509.CreateCertificate(crand.Reader, tmpl, tmpl, &key.PublicKey, key)
+		if err != nil {
+			t.Fatalf("tls cert: %v", err)
+		}
+		c12Cert = tls.Certificate{Certificate: [][]byte{der}, PrivateKey: key}
+	})
+	return &tls.Config{Certificates: []tls.Certificate{c12Cert}}
+}
+
+// c12RunServer starts a miniredis of the profile (plain or TLS-only).
+func c12RunServer(t *testing.T, p c12Profile) *miniredis.Miniredis {
+	var m *miniredis.Miniredis
+	var err error
+	if p.tls {
+		m, err = miniredis.RunTLS(c12ServerTLS(t))
+	} else {
+		m, err = miniredis.Run()
+	}
+	if err != nil {
+		t.Fatalf("miniredis (%s): %v", p.name, err)
+	}
+	if p.pass != "" {
+		m.RequireAuth(p.pass)
+	}
+	return m
+}
+
+// c12BlockNode: the caller-supplied node of the blocking pops. CreateBlockingNode (not
+// part of the property: blockingnode.go) builds its client without the TLS option, so
+// for TLS profiles the application's own go-redis client plays the node - the node is
+// an ARGUMENT of BLPop/BLPopEx/BLPopWithTimeout.
+type c12BlockNode struct{ *red.Client }
+
+func (b c12BlockNode) Close() { b.Client.Close() }
+
+type c12BlockCluster struct{ *red.ClusterClient }
+
+func (b c12BlockCluster) Close() { b.ClusterClient.Close() }
 
 // c12Wire records what a server is asked to execute (miniredis pre-hook: command name
 // and argument vector of every dispatched command, Lua redis.call included).
@@ -89,6 +184,73 @@ type c12Wire struct {
 	// script: when non-empty, the server does not execute the command but answers with
 	// this raw RESP reply (scripted steps: legal reply shapes miniredis never produces)
 	script string
+	// slots: when non-empty, the raw reply this node gives to CLUSTER SLOTS (two-node
+	// topology of the "front" profiles)
+	slots string
+	// command: when non-empty, the raw reply this node gives to COMMAND. miniredis 2.23.1
+	// sends its canned COMMAND table as ONE bulk string instead of an array; go-redis'
+	// ClusterClient cannot parse that, knows no key positions and then routes every
+	// command to a random slot. The two-node profiles serve the same table well-formed,
+	// so that routing is by key slot as on a real cluster.
+	command string
+}
+
+// c12CommandReply fetches miniredis' COMMAND table and re-frames it as the RESP array it
+// is meant to be.
+func c12CommandReply(t *testing.T, adm *red.Client) string {
+	txt, err := adm.Do(context.Background(), "COMMAND").Text()
+	if err != nil {
+		t.Fatalf("COMMAND: %v", err)
+	}
+	var lines []string
+	for _, l := range strings.Split(txt, "\n") {
+		if l = strings.TrimSpace(l); l != "" {
+			lines = append(lines, l)
+		}
+	}
+	if len(lines) < 100 || !strings.HasPrefix(lines[0], "*") {
+		t.Fatalf("unexpected COMMAND table from miniredis (%d lines)", len(lines))
+	}
+	return strings.Join(lines, "\r\n") + "\r\n"
+}
+
+// c12SlotsReply: CLUSTER SLOTS of the two-node topology: slots c12FrontLo..c12FrontHi ->
+// front, the rest -> data. The front range holds the slots of l:2 (4677) and z:1 (5093):
+// a tenth of the generated keys (a list and a sorted set) is redirected, and 3 % of the
+// keyless commands, which go to a random slot. go-redis sleeps 8..24 ms before it follows
+// a redirection (30 ms per redirected step for the two sides), so the share is kept small.
+const c12FrontLo, c12FrontHi = 4600, 5100
+
+func c12SlotsReply(front, data *miniredis.Miniredis) string {
+	node := func(m *miniredis.Miniredis, id string) string {
+		host, port, _ := net.SplitHostPort(m.Addr())
+		return "*3\r\n$" + fmt.Sprint(len(host)) + "\r\n" + host + "\r\n:" + port + "\r\n$40\r\n" + id + "\r\n"
+	}
+	f, d := node(front, strings.Repeat("f", 40)), node(data, strings.Repeat("d", 40))
+	return fmt.Sprintf("*3\r\n*3\r\n:0\r\n:%d\r\n%s*3\r\n:%d\r\n:%d\r\n%s*3\r\n:%d\r\n:16383\r\n%s",
+		c12FrontLo-1, d, c12FrontLo, c12FrontHi, f, c12FrontHi+1, d)
+}
+
+// c12FrontHook: the front node of a two-node profile (see c12Profile.front).
+func c12FrontHook(slots, command, dataAddr string, moved *int64) server.Hook {
+	return func(c *server.Peer, cmd string, args ...string) bool {
+		switch cmd {
+		case "COMMAND":
+			c.WriteRaw(command)
+			return true
+		case "CLUSTER":
+			if len(args) > 0 && strings.EqualFold(args[0], "SLOTS") {
+				c.WriteRaw(slots)
+				return true
+			}
+			return false
+		case "AUTH", "HELLO", "SELECT", "READONLY", "CLIENT", "ASKING":
+			return false // connection housekeeping is answered by the node itself
+		}
+		atomic.AddInt64(moved, 1)
+		c.WriteError("MOVED 0 " + dataAddr)
+		return true
+	}
 }
 
 func (w *c12Wire) setScript(raw string) {
@@ -102,6 +264,14 @@ var c12WireIgnore = map[string]bool{"AUTH": true, "HELLO": true, "SELECT": true,
 	"COMMAND": true, "READONLY": true, "CLIENT": true}
 
 func (w *c12Wire) hook(c *server.Peer, cmd string, args ...string) bool {
+	if cmd == "CLUSTER" && w.slots != "" && len(args) > 0 && strings.EqualFold(args[0], "SLOTS") {
+		c.WriteRaw(w.slots)
+		return true
+	}
+	if cmd == "COMMAND" && w.command != "" {
+		c.WriteRaw(w.command)
+		return true
+	}
 	if c12WireIgnore[cmd] {
 		return false
 	}
@@ -109,11 +279,34 @@ func (w *c12Wire) hook(c *server.Peer, cmd string, args ...string) bool {
 	w.cmds = append(w.cmds, append([]string{cmd}, args...))
 	raw := w.script
 	w.mu.Unlock()
+	if raw == c12Drop {
+		// the server goes away under the command: the connection is closed without a reply
+		c.Close()
+		return true
+	}
 	if raw != "" {
 		c.WriteRaw(raw)
 		return true // answered here, nothing is executed
 	}
 	return false // the server executes the command
+}
+
+// c12Drop (scripted steps, node profiles): instead of answering, both servers close the
+// connection the command arrived on - what a client sees when its server is restarted or
+// an idle pooled connection was dropped on the way. Every attempt of both clients ends in
+// EOF; how often a client re-sends is its retry policy (the wrapper configures
+// MaxRetries itself), so re-sent copies are collapsed before the wire comparison.
+const c12Drop = "!drop"
+
+func c12Collapse(cmds [][]string) [][]string {
+	var out [][]string
+	for _, c := range cmds {
+		if n := len(out); n > 0 && reflect.DeepEqual(out[n-1], c) {
+			continue
+		}
+		out = append(out, c)
+	}
+	return out
 }
 
 func (w *c12Wire) take() [][]string {
@@ -151,6 +344,9 @@ type c12Twins struct {
 	wa, wb *c12Wire // what A (behind the wrapper) and B (behind raw go-redis) were sent
 	how    int // the constructor that created (and warmed) the shared client of address A
 	mA, mB *miniredis.Miniredis
+	// fA, fB (profiles with front): the front nodes; clients are configured with THEIR address
+	fA, fB *miniredis.Miniredis
+	movedA, movedB int64 // -MOVED replies given by the front nodes
 	admA   *red.Client // raw client to A: used for housekeeping only (SCRIPT FLUSH)
 	// rawB: the reference client, raw go-redis with the same credentials: a *red.Client
 	// for node profiles, a *red.ClusterClient for cluster profiles (the go-redis client
@@ -167,9 +363,24 @@ type c12Twins struct {
 
 // newRedis builds a *Redis for server A of the profile in one of the ways an
 // application does: New(addr, options...), Config.NewRedis(), KeyConfig's NewRedis().
+// addrA / addrB: the address a client of side A / B is configured with.
+func (tw *c12Twins) addrA() string {
+	if tw.fA != nil {
+		return tw.fA.Addr()
+	}
+	return tw.mA.Addr()
+}
+
+func (tw *c12Twins) addrB() string {
+	if tw.fB != nil {
+		return tw.fB.Addr()
+	}
+	return tw.mB.Addr()
+}
+
 func (tw *c12Twins) newRedis(how int) *Redis {
 	p := tw.prof
-	conf := Config{Host: tw.mA.Addr(), Type: p.typ, Pass: p.cfgPass}
+	conf := Config{Host: tw.addrA(), Type: p.typ, Pass: p.cfgPass, Tls: p.tls}
 	switch how % 3 {
 	case 1:
 		return conf.NewRedis()
@@ -183,7 +394,10 @@ func (tw *c12Twins) newRedis(how int) *Redis {
 	if p.cfgPass != "" {
 		opts = append(opts, WithPass(p.cfgPass))
 	}
-	return New(tw.mA.Addr(), opts...)
+	if p.tls {
+		opts = append(opts, WithTLS())
+	}
+	return New(tw.addrA(), opts...)
 }
 
 var (
@@ -220,7 +434,14 @@ func c12Setup(t *testing.T) *c12Twins { return c12Get(t, 0, 0) }
 // the configuration only shows when it is that first user. Hence one server pair per
 // (profile, constructor), warmed through that constructor.
 func c12Get(t *testing.T, p, how int) *c12Twins {
-	c12Log.Do(logx.Disable)
+	c12Log.Do(func() {
+		logx.Disable()
+		for _, n := range c12ScriptedNames {
+			if c12Table[n] == nil {
+				t.Fatalf("c12: scripted shapes for %q, which is not a table entry", n)
+			}
+		}
+	})
 	c12Mu.Lock()
 	defer c12Mu.Unlock()
 	i := 3*p + how%3
@@ -246,28 +467,37 @@ func c12Renew(t *testing.T, tw *c12Twins) {
 		tw.rawB.Close()
 		tw.blockA.Close()
 	}
-	if tw.mA, err = miniredis.Run(); err != nil {
-		t.Fatalf("miniredis A: %v", err)
-	}
-	if tw.mB, err = miniredis.Run(); err != nil {
-		t.Fatalf("miniredis B: %v", err)
-	}
-	if p.pass != "" {
-		tw.mA.RequireAuth(p.pass)
-		tw.mB.RequireAuth(p.pass)
-	}
+	tw.mA = c12RunServer(t, p)
+	tw.mB = c12RunServer(t, p)
 	tw.wa, tw.wb = &c12Wire{}, &c12Wire{}
+	tw.admA = red.NewClient(&red.Options{Addr: tw.mA.Addr(), Password: p.cfgPass, TLSConfig: p.clientTLS()})
+	if p.front {
+		tw.fA, tw.fB = c12RunServer(t, p), c12RunServer(t, p)
+		tw.wa.slots, tw.wb.slots = c12SlotsReply(tw.fA, tw.mA), c12SlotsReply(tw.fB, tw.mB)
+		tw.wa.command = c12CommandReply(t, tw.admA)
+		tw.wb.command = tw.wa.command
+		tw.fA.Server().SetPreHook(c12FrontHook(tw.wa.slots, tw.wa.command, tw.mA.Addr(), &tw.movedA))
+		tw.fB.Server().SetPreHook(c12FrontHook(tw.wb.slots, tw.wb.command, tw.mB.Addr(), &tw.movedB))
+	}
 	tw.mA.Server().SetPreHook(tw.wa.hook)
 	tw.mB.Server().SetPreHook(tw.wb.hook)
-	tw.admA = red.NewClient(&red.Options{Addr: tw.mA.Addr(), Password: p.cfgPass})
 	if p.cluster() {
-		tw.rawB = red.NewClusterClient(&red.ClusterOptions{Addrs: []string{tw.mB.Addr()}, Password: p.cfgPass})
+		tw.rawB = red.NewClusterClient(&red.ClusterOptions{Addrs: []string{tw.addrB()}, Password: p.cfgPass, TLSConfig: p.clientTLS()})
 	} else {
-		tw.rawB = red.NewClient(&red.Options{Addr: tw.mB.Addr(), Password: p.cfgPass})
+		tw.rawB = red.NewClient(&red.Options{Addr: tw.mB.Addr(), Password: p.cfgPass, TLSConfig: p.clientTLS()})
 	}
-	tw.blockA, err = CreateBlockingNode(tw.newRedis(tw.how))
-	if err != nil {
-		t.Fatalf("blocking node: %v", err)
+	switch {
+	case p.tls && p.cluster():
+		tw.blockA = c12BlockCluster{red.NewClusterClient(&red.ClusterOptions{Addrs: []string{tw.mA.Addr()}, Password: p.cfgPass,
+			PoolSize: 1, ReadTimeout: 7 * time.Second, TLSConfig: p.clientTLS()})}
+	case p.tls:
+		tw.blockA = c12BlockNode{red.NewClient(&red.Options{Addr: tw.mA.Addr(), Password: p.cfgPass,
+			PoolSize: 1, ReadTimeout: 7 * time.Second, TLSConfig: p.clientTLS()})}
+	default:
+		tw.blockA, err = CreateBlockingNode(tw.newRedis(tw.how))
+		if err != nil {
+			t.Fatalf("blocking node: %v", err)
+		}
 	}
 	// warm the shared wrapper client (client / cluster manager) of the new address
 	// through the constructor of these twins. If the wrapper cannot reach its server
@@ -275,7 +505,7 @@ func c12Renew(t *testing.T, tw *c12Twins) {
 	// histories will report it; if raw go-redis cannot either, the run is inconclusive.
 	for i := 0; !tw.newRedis(tw.how).Ping() && !p.mustFail(); i++ {
 		if i > 20 {
-			probe := red.NewClient(&red.Options{Addr: tw.mA.Addr(), Password: p.pass})
+			probe := red.NewClient(&red.Options{Addr: tw.mA.Addr(), Password: p.pass, TLSConfig: p.clientTLS()})
 			perr := probe.Ping(context.Background()).Err()
 			probe.Close()
 			if perr != nil {
@@ -292,6 +522,7 @@ func c12Renew(t *testing.T, tw *c12Twins) {
 	// client below is created after both
 	c12Dead(t)
 	c12Hung(t)
+	c12Gone(t)
 	if tw.mD, err = miniredis.Run(); err != nil {
 		t.Fatalf("miniredis D: %v", err)
 	}
@@ -314,6 +545,9 @@ type c12Env struct {
 	types   map[string]bool
 	hits    int
 	ncmd    int
+	// scriptedRaw: non-empty while a scripted step runs its inner command (nothing is
+	// executed by the servers, so no command can block and no skip rule applies)
+	scriptedRaw string
 }
 
 // reset empties both twins. It reports false when the housekeeping round trips
@@ -506,9 +740,13 @@ func c12Interp(t *testing.T, c c12Case) (v kit.Verdict) {
 		v.Classes = []string{"env:stalled-step"}
 		return v
 	}
+	moved0 := atomic.LoadInt64(&tw.movedA)
 	defer func() {
 		if p := recover(); p != nil {
 			v.Fail = fmt.Sprintf("panic while interpreting the history (a wrapper method must return go-redis' result or error): %v", p)
+		}
+		if n := atomic.LoadInt64(&tw.movedA) - moved0; n > 0 {
+			e.classes["cluster2:wrapper-followed-redirections"] = true
 		}
 		v.NonTrivial = e.ncmd >= 10 && len(e.types) >= 3 && (e.hits >= 1 || tw.prof.mustFail())
 		for k := range e.classes {
@@ -578,7 +816,7 @@ func (e *c12Env) step(s c12Step) string {
 	if ent == nil {
 		return "unknown command in case"
 	}
-	if ent.skip != nil && ent.skip(e, s) {
+	if ent.skip != nil && e.scriptedRaw == "" && ent.skip(e, s) {
 		e.classes["skipped:"+s.C] = true
 		return ""
 	}
@@ -634,7 +872,30 @@ func (e *c12Env) step(s c12Step) string {
 		return ent.judge(e, s, got, gerr)
 	}
 	want, werr := ent.ref(e.tw.rawB, refCtx, s)
-	if c12ErrStr(gerr) != c12ErrStr(werr) {
+	var wireA, wireB [][]string
+	if dropped := e.scriptedRaw == c12Drop && !dead; dropped {
+		// both servers closed the connection without a reply: a client whose server was
+		// sent a command must report a failure that is neither success nor "absent" nor
+		// "cancelled" (a method that answers without asking its server, e.g. an ...AndLimit
+		// page of size 0, is judged as usual). The texts are not compared (a reset instead
+		// of an orderly close would carry port numbers).
+		wireA, wireB = c12Collapse(e.tw.wa.take()), c12Collapse(e.tw.wb.take())
+		for _, side := range []struct {
+			who  string
+			wire [][]string
+			err  error
+		}{{"the wrapper", wireA, gerr}, {"go-redis", wireB, werr}} {
+			if len(side.wire) > 0 && (side.err == nil || side.err == red.Nil || side.err == context.Canceled) {
+				return fmt.Sprintf("both servers closed the connection without answering %s, but %s returned %q", c12WireStr(side.wire, false), side.who, c12ErrStr(side.err))
+			}
+		}
+		if len(wireA) > 0 {
+			e.classes["drop-error:"+c12ErrStr(gerr)] = true
+		}
+		if len(wireA) == 0 && len(wireB) == 0 && c12ErrStr(gerr) != c12ErrStr(werr) {
+			return fmt.Sprintf("wrapper error %q, go-redis %q", c12ErrStr(gerr), c12ErrStr(werr))
+		}
+	} else if c12ErrStr(gerr) != c12ErrStr(werr) {
 		return fmt.Sprintf("wrapper error %q, go-redis (after documented Nil mapping) %q; wrapper value %s, go-redis value %s",
 			c12ErrStr(gerr), c12ErrStr(werr), c12Canon(got, ent.unordered), c12Canon(want, ent.unordered))
 	}
@@ -645,7 +906,10 @@ func (e *c12Env) step(s c12Step) string {
 	}
 	// same command with the same arguments: what the wrapper's server was asked to
 	// execute equals what the corresponding go-redis call asks its server to execute
-	if g, w := c12WireStr(e.tw.wa.take(), false), c12WireStr(e.tw.wb.take(), false); g != w {
+	if wireA == nil && wireB == nil {
+		wireA, wireB = e.tw.wa.take(), e.tw.wb.take()
+	}
+	if g, w := c12WireStr(wireA, false), c12WireStr(wireB, false); g != w {
 		return fmt.Sprintf("on the wire: the wrapper sent %s, the corresponding go-redis call with the same arguments sends %s", g, w)
 	}
 	// same effect on the server: the wrapper's server processed as many commands as
@@ -660,6 +924,21 @@ func (e *c12Env) step(s c12Step) string {
 // PipelinedCtx on A and inside go-redis' Pipelined on B; every queued command must
 // end with the same result and the two calls must return the same error.
 func (e *c12Env) pipeline(s c12Step) string {
+	// Two-node profiles: go-redis' ClusterClient splits a pipeline into one batch per node,
+	// sends the batches concurrently and re-sends redirected commands in a later round, so
+	// the order in which the data node sees commands on DIFFERENT keys is go-redis' business
+	// (commands on one key keep their order: same slot, same batch). The wire is compared
+	// as a multiset there, and a pipeline with a multi-key Del (whose result depends on that
+	// order; a real cluster refuses it as CROSSSLOT) is not run.
+	front := e.tw.prof.front
+	if front {
+		for _, q := range s.P {
+			if q.C == "Del" && len(q.K) > 1 {
+				e.classes["skipped:pipeline-multikey-del-on-two-nodes"] = true
+				return ""
+			}
+		}
+	}
 	e.ncmd++
 	e.classes["cmd:Pipelined"] = true
 	queue := func(ctx context.Context, out *[]red.Cmder) func(p red.Pipeliner) error {
@@ -694,7 +973,8 @@ func (e *c12Env) pipeline(s c12Step) string {
 	defer e.noteErr(gerr)
 	_, werr := e.tw.rawB.Pipelined(refCtx, queue(refCtx, &cb))
 	if c12ErrStr(gerr) != c12ErrStr(werr) {
-		return fmt.Sprintf("Pipelined returned %q through the wrapper, %q through go-redis", c12ErrStr(gerr), c12ErrStr(werr))
+		return fmt.Sprintf("Pipelined returned %q through the wrapper, %q through go-redis (wire: wrapper %s, go-redis %s)", c12ErrStr(gerr), c12ErrStr(werr),
+			c12WireStr(e.tw.wa.take(), false), c12WireStr(e.tw.wb.take(), false))
 	}
 	if len(ca) != len(cb) || len(ca) != len(s.P) {
 		return fmt.Sprintf("queued %d commands through the wrapper, %d through go-redis, want %d", len(ca), len(cb), len(s.P))
@@ -704,7 +984,7 @@ func (e *c12Env) pipeline(s c12Step) string {
 			return fmt.Sprintf("pipelined command %d: wrapper side %q, go-redis side %q", i, a, b)
 		}
 	}
-	if g, w := c12WireStr(e.tw.wa.take(), false), c12WireStr(e.tw.wb.take(), false); g != w {
+	if g, w := c12WireStr(e.tw.wa.take(), front), c12WireStr(e.tw.wb.take(), front); g != w {
 		return fmt.Sprintf("on the wire: the wrapper's Pipelined sent %s, go-redis' Pipelined sends %s", g, w)
 	}
 	if da, db := e.tw.mA.CommandCount()-na0, e.tw.mB.CommandCount()-nb0; da != db && e.countable() {
@@ -734,10 +1014,23 @@ func (e *c12Env) scripted(s c12Step) string {
 	if len(shapes) == 0 || c12Table[inner.C] == nil {
 		return "unknown scripted command in case"
 	}
-	raw := shapes[int(s.I[0])%len(shapes)]
+	raw := shapes[int(uint64(s.I[0])%uint64(len(shapes)))]
+	if s.I[0] < 0 {
+		// I[0] = -1: the connection-drop shape. go-redis' ClusterClient reacts to a failing
+		// node with bookkeeping of its own (marks it as failing for 15 s, reloads the slots,
+		// tries random nodes), which would leak into the following steps: node profiles only.
+		if e.tw.prof.cluster() || e.tw.prof.mustFail() {
+			e.classes["skipped:scripted-drop"] = true
+			return ""
+		}
+		raw = c12Drop
+		e.classes["scripted-drop:"+inner.C] = true
+	}
 	e.classes["scripted:"+inner.C] = true
+	e.scriptedRaw = raw
 	e.tw.wa.setScript(raw)
 	e.tw.wb.setScript(raw)
+	defer func() { e.scriptedRaw = "" }()
 	defer e.tw.wa.setScript("")
 	defer e.tw.wb.setScript("")
 	if msg := e.step(inner); msg != "" {
@@ -953,9 +1246,14 @@ func c12GenWith(g *c12G) c12Case {
 	// client configuration: 11/20 plain node, 4/20 node+pass, 1/20 each cluster and
 	// cluster+pass (a wrapper call through go-redis' ClusterClient costs about 10 times a
 	// node call), 1/20 each must-fail configuration; constructor drawn uniformly
-	c.P = []int{0, 0, 0, 0, 0, 0, 0, 0, 0, 0, 0, 1, 1, 1, 1, 2, 3, 4, 5, 6}[g.uni(20)]
+	// round 8: TLS-only servers, 2/24 node+tls, 1/24 each node+tls+pass and cluster+tls
+	// and two-node clusters with redirections (1/26 each with and without password)
+	c.P = []int{0, 0, 0, 0, 0, 0, 0, 0, 0, 0, 0, 1, 1, 1, 1, 2, 3, 4, 5, 6, 7, 7, 8, 9, 10, 11}[g.uni(26)]
 	c.How = g.uni(3)
 	n := 10 + g.uni(51)
+	if c12Profiles[c.P].front {
+		n = 10 + g.uni(16) // a redirected command costs go-redis' back-off sleep (8..24 ms)
+	}
 	for i := 0; i < n; i++ {
 		c.Steps = append(c.Steps, c12GenStep(g, true))
 	}
@@ -971,11 +1269,15 @@ func c12GenStep(g *c12G, top bool) c12Step {
 		g.elapsed += time.Duration(d) * time.Millisecond
 		return c12Step{C: "advance", I: []int64{d}}
 	case top && roll >= 11 && roll <= 13: // 3 %: scripted reply shapes
-		name := c12ScriptedNames[g.uni(len(c12ScriptedNames))]
+		name := c12ScriptedWeighted[g.uni(len(c12ScriptedWeighted))]
 		in := c12Table[name].gen(g)
 		in.C = name
 		in.X = g.uni(2) == 1
-		return c12Step{C: "scripted", I: []int64{int64(g.uni(len(c12Scripted[name])))}, P: []c12Step{in}}
+		shape := int64(g.uni(len(c12Scripted[name])))
+		if g.uni(40) == 0 { // a dropped command costs both clients their retry back-offs (about 0.15 s)
+			shape = -1 // both servers drop the connection instead of answering
+		}
+		return c12Step{C: "scripted", I: []int64{shape}, P: []c12Step{in}}
 	case top && roll == 10 && g.uni(3) == 0: // about 1 step in 300
 		return c12Step{C: "burst", X: g.uni(2) == 1, I: []int64{int64(12 + g.uni(13)), 3000}}
 	case top && roll >= 5 && (roll < 10 || (g.pipePct > 5 && roll >= 105-g.pipePct)): // 5 % (or pipePct %) pipelines
@@ -1018,6 +1320,6 @@ func (g *c12G) ctxMode(x bool) int {
 
 func TestVerif_C12_twin(t *testing.T) {
 	c12Setup(t)
-	kit.Run(t, "C12", "wrapper-twin", kit.Opts{Quick: 1500, Thorough: 96000}, c12Gen,
+	kit.Run(t, "C12", "wrapper-twin", kit.Opts{Quick: 1300, Thorough: 96000}, c12Gen,
 		func(c c12Case) kit.Verdict { return c12Interp(t, c) })
 }
